@@ -626,7 +626,7 @@ func (p *Parser) parseCreateIndex(unique bool) (*ast.CreateIndexStatement, error
 	// Parse optional USING
 	if p.isType(models.TokenTypeUsing) {
 		p.advance() // Consume USING
-		if !p.isIdentifier() {
+		if !p.isIdentifier() && !p.isType(models.TokenTypeKeyword) {
 			return nil, p.expectedError("index method")
 		}
 		stmt.Using = p.currentToken.Literal
